@@ -61,8 +61,45 @@ def run(ctx: Ctx) -> None:
         # hangs under the current container, node j -> n + j, links copied, the given wires attached to the copy of the root in order)
         from . import builder_model
         builder_model.run(ctx, wd, only_feature="insert")
+        _insert_into_block(ctx)
     finally:
         cleanup(wd)
+
+
+def _insert_into_block(ctx: Ctx) -> None:
+    """directed: the insertion parent is a basic block and a given wire comes from another block of the same CFG (a Dom wire): the copy of the
+    root hangs under the block and every given wire is attached exactly once (HugrBuilder!Insert with WireUp, instantiated by hand because the
+    configuration - CFG, two blocks, Dom wire, insertion - needs more calls than the exhaustive runs reach)"""
+    from hugr import tys
+    from hugr.build.cfg import Cfg
+    from . import builder_model
+    for name in ("id", "nestext", "cond", "cfg", "loop"):
+        ctx.evaluations += 1
+        cfg = Cfg(tys.Bool, tys.Qubit)
+        e = cfg.add_entry()
+        b0, q0 = e.inputs()
+        e.set_single_succ_outputs(b0, q0)
+        blk = cfg.add_successor(e[0])
+        b1, q1 = blk.inputs()
+        t = builder_model.build_template(name)
+        try:
+            if name in ("id", "nestext"):
+                n, wires = blk.insert_nested(t, b0), [b0]                    # b0 lives in the entry block: a Dom wire
+            elif name == "cond":
+                n, wires = blk.insert_conditional(t, b0, b1), [b0, b1]
+            elif name == "cfg":
+                n, wires = blk.insert_cfg(t, b0), [b0]
+            else:
+                n, wires = blk.insert_tail_loop(t, [b0], [q1]), [b0, q1]
+            h = cfg.hugr
+            got = [[(p.node.idx, p.offset) for p in h.linked_ports(n.inp(k))] for k in range(len(wires))]
+            want = [[(w.node.idx, w.offset)] for w in wires]
+            if got != want or h[n].parent != blk.parent_node:
+                ctx.violation({"action": "insert into a block with a Dom wire", "field": name}, {"template": name}, {"links": want, "parent": blk.parent_node.idx},
+                              {"links": got, "parent": getattr(h[n].parent, "idx", None)}, clause="HugrBuilder!Insert / WireUp (each given wire attached once)", leg="S2C")
+        except Exception as ex:  # noqa: BLE001
+            ctx.violation({"action": "insert into a block with a Dom wire", "field": f"exception {type(ex).__name__}"}, {"template": name}, "accepted", repr(ex)[:300],
+                          clause="HugrBuilder!Insert", leg="S2C")
 
 
 def replay(path: str) -> int:
